@@ -63,6 +63,7 @@ type WorldCfg struct {
 	ClientInsecure         bool   // -k
 	ClientCAFile           bool   // the client's CA certificate is given as a file (read at every connect)
 	UseHostName            bool   // upstream URL names server.test instead of the IP literal
+	UsePortOnly            bool   // upstream URL has no host part (tcp://:port)
 	ClientPassword         string // udp+pass: the client's secret (defaults to the server's)
 	Channels               []ChanCfg
 	ServerAllow            []string // allow-list of the server endpoint (nil = all)
@@ -166,6 +167,9 @@ func serverEntry(cfg *WorldCfg, carrier string, port int) (yamlText, upstreamURL
 	uhost := ServerIP
 	if cfg.UseHostName {
 		uhost = ServerName
+	}
+	if cfg.UsePortOnly && (carrier == "tcp" || carrier == "tcp+tls") {
+		uhost = "" // "tcp://:9000": no host at all (the harness redirects the wildcard address to the server)
 	}
 	var b strings.Builder
 	var address string
